@@ -256,6 +256,13 @@ func (w *IngressWorld) IngressStep(rs *ReqSpec) {
 		w.Res.States = append(w.Res.States, w.Model.Hash())
 	}()
 
+	if idx >= 0 {
+		if m := w.Spec.Routes[idx].Match; m != nil && len(m.Hosts) > 1 {
+			if h := refNormalizeHost(req.Host); !refHostMatch(h, m.Hosts[:1]) && refHostMatch(h, m.Hosts) {
+				w.Res.probe("ingress.host.matched_by_later_list_entry")
+			}
+		}
+	}
 	if idx < 0 {
 		w.Res.logf("%s (no route: want %d allow=%v)", desc, wantSt, allow)
 		w.Res.probe(fmt.Sprintf("ingress.noroute.%d", wantSt))
